@@ -5,10 +5,10 @@
    Lib/XferFacts.v (xstmt).  This file gives that language its meaning on the objects of
    Model/Bytes.v and Model/TransferBytes.v:
 
-     await FILE.seek(conn.restart_offset)      h_seek off
+     await FILE.seek(conn.transfer_offset)     h_seek off
      await FILE.write(ITEM)                    h_write ITEM at the handle's position
      await STREAM.write(ITEM)                  all of ITEM queued, in order, on the connection
-     if conn.restart_offset: ...               body runs iff the offset is non-zero
+     if conn.transfer_offset: ...              body runs iff the handed offset is non-zero
      async for ITEM in STREAM.iter_by_block(n) the blocks before the FIRST empty read of the network
      async for ITEM in FILE.iter_by_block(n)   the blocks before the first empty read of the backend,
                                                FROM THE HANDLE'S POSITION WHEN THE LOOP STARTS
@@ -27,7 +27,7 @@ Open Scope list_scope.
 Open Scope nat_scope.
 
 Record xenv : Type := mkXE {
-  xe_off : nat;                    (* conn.restart_offset *)
+  xe_off : nat;                    (* conn.transfer_offset: the offset the dispatcher handed to this transfer command *)
   xe_count : string;               (* the expression that denotes the block size here *)
   xe_block : nat;                  (* its value *)
   xe_stream_reads : list bytes;    (* values of the successive STREAM.read(block) calls *)
